@@ -34,8 +34,24 @@ type gaeResult struct {
 }
 
 // gaeCall runs one request against the App Engine proxy the way the platform would.
+// cutBody is a request body that ends with io.ErrUnexpectedEOF after its bytes
+// (the caller's connection was closed partway through the upload).
+type cutBody struct{ r *bytes.Reader }
+
+func (c *cutBody) Read(p []byte) (int, error) {
+	n, err := c.r.Read(p)
+	if err == io.EOF {
+		return n, io.ErrUnexpectedEOF
+	}
+	return n, err
+}
+
 func gaeCall(w *World, plat *simplatform.Platform, service string, id simplatform.Identity, method, target string, hdr http.Header, body []byte) *gaeResult {
-	req := httptest.NewRequest(method, "http://app.example.test"+target, bytes.NewReader(body))
+	return gaeCallBody(w, plat, service, id, method, target, hdr, bytes.NewReader(body))
+}
+
+func gaeCallBody(w *World, plat *simplatform.Platform, service string, id simplatform.Identity, method, target string, hdr http.Header, body io.Reader) *gaeResult {
+	req := httptest.NewRequest(method, "http://app.example.test"+target, body)
 	for k, vs := range hdr {
 		req.Header[k] = vs
 	}
@@ -138,7 +154,10 @@ func worldC17(w *World) {
 	acl := map[string]*gaeBackend{} // reference, from successful admin calls
 	var steps []step
 	idents := func() (simplatform.Identity, string) {
-		switch t.Choice(6, "identity") {
+		switch t.Choice(7, "identity") {
+		case 6:
+			w.Probe("oauth_token_without_email")
+			return simplatform.Identity{OAuthNoEmail: true}, "oauth account without an e-mail address"
 		case 0:
 			return simplatform.Identity{}, "anonymous"
 		case 1:
@@ -532,6 +551,7 @@ func worldC18(w *World) {
 		plans[i].ago = []time.Duration{time.Second, 2 * time.Minute, 4*time.Minute + 58*time.Second, 5*time.Minute + 2*time.Second, 20 * time.Minute}[t.Choice(5, "ago")]
 	}
 	lookupFault := t.Rare(1, 6, "lookupfault")
+	lookupFaultKind := t.Choice(2, "lookupfaultkind")
 	// a busy backend: a request is pending for it, so its agent's polls return at
 	// once, every 20 s over more than the liveness window; storing the liveness
 	// record is slower than the queries
@@ -697,10 +717,24 @@ func worldC18(w *World) {
 		}
 		reqStart = w.K.Now()
 		if lookupFault {
+			queryFault := lookupFaultKind == 1
+			var qmu sync.Mutex
+			failedQueries := 0
 			plat.Fault = func(r *simplatform.RPC) error {
-				if r.Service == "datastore_v3" && r.Method == "Get" && len(r.Keys) == 1 && strings.HasPrefix(r.Keys[0], "/backendTracker:") {
+				if !queryFault && r.Service == "datastore_v3" && r.Method == "Get" && len(r.Keys) == 1 && strings.HasPrefix(r.Keys[0], "/backendTracker:") {
 					w.K.Count("fault.tracker_lookup")
 					return errors.New("injected datastore failure")
+				}
+				// the first backend queries fail (the one for the user's own backends comes first)
+				if queryFault && r.Service == "datastore_v3" && r.Method == "RunQuery" && r.Kind == "backend" {
+					qmu.Lock()
+					failedQueries++
+					fail := failedQueries <= len(reqs)
+					qmu.Unlock()
+					if fail {
+						w.K.Count("fault.backend_query")
+						return errors.New("injected datastore failure")
+					}
 				}
 				return nil
 			}
@@ -891,8 +925,11 @@ func worldC19(w *World) {
 		// arrives right after the agent's response was stored, before the client's
 		// next look
 		cronAfterPost bool
-		urlTok        string
-		cacheControl  string
+		// cutFirstPost: the agent's connection is closed partway through its first
+		// respond call (the body ends early); it then posts the response again
+		cutFirstPost bool
+		urlTok       string
+		cacheControl string
 	}
 	var reqs []*creq
 	for i := 0; i < nC; i++ {
@@ -910,6 +947,7 @@ func worldC19(w *World) {
 		c.respDelay = []time.Duration{0, time.Second, 10 * time.Second, 29 * time.Second}[t.Choice(4, "respdelay")]
 		c.urlTok = c.tok
 		c.cronAfterPost = t.Rare(1, 4, "cronafterpost")
+		c.cutFirstPost = t.Rare(1, 5, "cutfirstpost")
 		if t.Rare(1, 4, "exactresp") {
 			c.exactResp = t.Range(1, 3, "exactrespk")
 		}
@@ -1189,6 +1227,15 @@ func worldC19(w *World) {
 							fmu.Lock()
 							armBoth = 2
 							fmu.Unlock()
+						}
+						if c.cutFirstPost && len(resp) > 40 {
+							ck := begin("respond")
+							cr := gaeCallBody(w, plat, "agent", agentID, "POST", "/agent/response", agentHdr("be0", id), &cutBody{bytes.NewReader(resp[:len(resp)/2])})
+							note(ck, cr)
+							w.Probe("respond_call_cut_partway")
+							if cr.Status == 200 && !faulty {
+								w.Violation("relay", "a respond call whose body ended early was acknowledged as successful | %d of %d bytes had arrived", len(resp)/2, len(resp))
+							}
 						}
 						pk := begin("respond")
 						pr := gaeCall(w, plat, "agent", agentID, "POST", "/agent/response", agentHdr("be0", id), resp)
